@@ -273,6 +273,44 @@ func init() {
 					})
 				}
 			}
+			// the configuration uses, for values and functions only, the very packages the generated code needs itself
+			// (context, errors, fmt, os, reflect, strconv, the runtime's container package): each alone and all together, with
+			// and without a getter whose type is of such a package
+			{
+				own := []Service{
+					{Name: "oCtx", Constructor: P("context.Background")},
+					{Name: "oErr", Constructor: P("errors.New"), Args: []any{"x"}},
+					{Name: "oFmt", Constructor: P("fmt.Sprint"), Args: []any{"x", 1}},
+					{Name: "oOs", Constructor: P("os.Getenv"), Args: []any{"HOME"}},
+					{Name: "oReflect", Constructor: P("reflect.TypeOf"), Args: []any{1}},
+					{Name: "oStrconv", Constructor: P("strconv.Itoa"), Args: []any{5}},
+					{Name: "oContainer", Constructor: P("github.com/gontainer/gontainer-helpers/v3/container.New")},
+					{Name: "oValue", Value: P("os.Args")},
+					{Name: "oArg", Constructor: P("pk.New"), Args: []any{"!value context.Canceled", "!value os.ErrNotExist"}},
+				}
+				for v := 0; v <= len(own)+1; v++ {
+					for g := 0; g < 3; g++ {
+						v, g := v, g
+						id := fmt.Sprintf("own-packages/%d/getter=%d", v, g)
+						w.Case(id, func(c *C) {
+							cfg := &Cfg{Meta: stdMeta(), Services: []Service{{Name: "typed", Constructor: P("pk.New"), Getter: P("GetTyped"), Type: P("*pk.Obj")}}}
+							switch {
+							case v < len(own):
+								cfg.Services = append(cfg.Services, own[v])
+							case v == len(own):
+								cfg.Services = append(cfg.Services, own...)
+							}
+							switch g {
+							case 1:
+								cfg.Services = append(cfg.Services, Service{Name: "gCtx", Constructor: P("context.TODO"), Getter: P("GetCtx"), Type: P("context.Context")})
+							case 2:
+								cfg.Services = append(cfg.Services, Service{Name: "gErr", Constructor: P("errors.New"), Args: []any{"e"}, Getter: P("GetErr"), Type: P("error")}, Service{Name: "gFile", Value: P("os.Stdout"), Getter: P("GetFile"), Type: P("*os.File")})
+							}
+							pair(c, id, []File{{"c.yaml", cfg.YAML()}}, false, P(true))
+						})
+					}
+				}
+			}
 			// boundary strings (empty, blank, a digit, a separator) in every grammar position of C11: whatever the verdict
 			// is, it is the same in both modes
 			for _, p := range c11positions() {
